@@ -127,6 +127,9 @@ func (vs *VerifC10Server) RemoveStatic(mac net.HardwareAddr, ip netip.Addr, host
 // the clients registry.
 func (vs *VerifC10Server) Iface() (i Interface) { return vs.srv }
 
+// ResetLeases is what POST /control/dhcp/reset_leases ends in.
+func (vs *VerifC10Server) ResetLeases() (err error) { return vs.srv.resetLeases() }
+
 // HostByIP, IPByHost, MACByIP and Leases are the answers given to DNS and
 // the clients registry, through the real [Interface] methods of *server.
 func (vs *VerifC10Server) HostByIP(ip netip.Addr) (host string) { return vs.srv.HostByIP(ip) }
